@@ -23,3 +23,80 @@ def configs(run, extra_quick=()):
 def add_rules(run, names):
     for n in names:
         run.rule(n, acc.RULES.get(n, ''))
+
+
+# ---------------------------------------------------------------------------------------------
+# Shared dependencies.  A property about the rolling / aggregation / mapping functions holds
+# only if the helpers those functions are built on behave: the window drivers, the backend
+# accessors, the IsNone implementations, the aggregation helpers a kernel calls.  Each group
+# below is a rule set owned by another property; a property lists the groups it depends on and
+# runs them on its own configurations, so that a change to a helper is reported by every
+# property it breaks and not only by the helper's owner.
+
+def dep_drivers(run, F):
+    """window drivers of view.rs: one call per position with the protocol's arguments"""
+    import drivers
+    drivers.check_drivers(run, F, rules=('DRV.len', 'DRV.early', 'SEQ.len', 'DRV.args', 'DRV.iter', 'DRV.cover'))
+
+
+def dep_isnone(run, F):
+    """the IsNone implementations are coherent (none() is none, not_none = !is_none, ...)"""
+    import nullrules as N
+    run.rule('NUL.coherent', N.RULES['NUL.coherent'])
+    n = N.check_isnone(run, F)
+    run.floor('NUL.coherent', 'IsNone impls', n if isinstance(n, int) else 16, 16)
+    # ... and the null-last comparators every sort / selection / extreme kernel relies on
+    run.rule('CMP.table', N.RULES['CMP.table'])
+    nc = N.check_comparators(run, F)
+    run.floor('CMP.table', 'comparator bodies', nc, 2)
+
+
+def dep_accessors(run, F):
+    """backend accessors pass indices / ranges unchanged to the container's own accessor"""
+    import C07
+    import backends as B
+    for r in ('API.pass', 'API.slice-order', 'API.write'):
+        run.rule(r, B.RULES[r])
+    run.rule('API.len', 'GetLen::len of a backend is the container\'s own length')
+    run.rule('API.iter', 'TIter::titer of a backend iterates the container in logical order')
+    C07.accessors(run, F)
+    C07.lens_iters(run, F)
+    C07.mut_slices(run, F)
+    B.check_writes(run, F, C07.head_of)
+
+
+def dep_agg_gates(run, F):
+    """the one-pass aggregations a rolling kernel calls keep their own minimum counts"""
+    import aggrules as A
+    for r in ('AGG.gate', 'AGG.sub'):
+        if r in A.RULES:
+            run.rule(r, A.RULES[r])
+    A.check_gates(run, F)
+
+
+def dep_casts(run, F):
+    """Cast instances map null to null (the statistics cast their inputs to f64 and their results
+    to the caller's element type)"""
+    import nullrules as N
+    for r in ('CAST.null', 'CAST.value'):
+        if r in N.RULES:
+            run.rule(r, N.RULES[r])
+    n = N.check_casts(run, F, skip_time=True)
+    run.floor('CAST', 'Cast impl instances (time types excluded)', n, 300)
+
+
+DEPS = {'casts': dep_casts, 'drivers': dep_drivers, 'isnone': dep_isnone, 'accessors': dep_accessors, 'agg_gates': dep_agg_gates}
+
+
+def deps(run, F, *groups):
+    for g in groups:
+        DEPS[g](run, F)
+
+
+def dep_backends(run):
+    """the feature-gated backends (VecDeque, ndarray: config nd; polars: config full) supply
+    the accessors every generic algorithm reads its input through"""
+    keep = run.config
+    for cfg in ('nd', 'full'):
+        dep_accessors(run, run.facts(cfg))
+    run.config = keep
